@@ -108,7 +108,43 @@ def bounds(tier):
 
 
 def units(tier, seed):
-  return [('shapes', k) for k in range(NCHUNK)] + [('expressions',)]
+  return ([('shapes', k) for k in range(NCHUNK)] + [('expressions',)] +
+          [('subfixture_family',)])
+
+
+def subfixture_family():
+  """Six-node shapes built around two sub-fixtures A and B that share a node
+  S, where A also contains another node W nested one level down: every
+  placement of S, W in x / y slots (so that preferred variable names and
+  parameter names coincide or not)."""
+  U = shapes.UNSET
+  R = lambda j: ('R', j)
+  S, W = ('cfg', (U, U)), ('pa', (U, U))          # nodes 0, 1
+  for y_slots in ((R(1), U), (U, R(1)), (R(1), R(1))):
+    Y = ('cfg', y_slots)                           # node 2
+    for a_slots in ((R(0), R(2)), (R(2), R(0))):
+      A = ('cls', a_slots)                         # node 3
+      for b_slots in ((R(0), U), (U, R(0)), (R(0), R(1)), (R(1), R(0))):
+        B = ('pb', b_slots)                        # node 4
+        for root_slots in ((R(3), R(4)), (R(4), R(3))):
+          yield (S, W, Y, A, B, ('cfg', root_slots))
+
+
+def run_subfixture_family(b, res):
+  for shape in subfixture_family():
+    res.states += 1
+    res.nontrivial += 1
+    objs = make(shape)
+    bidx = [i for i, (kind, _) in enumerate(shape[:-1])]
+    # sub-fixture subsets: {A, B}, {A}, {B}, {Y, A}
+    for chosen in ((3, 4), (3,), (4,), (2, 3)):
+      subidx = tuple(bidx.index(c) for c in chosen)
+      for gen in GENERATORS:
+        for complexity in (None, 0, 1, 2):
+          res.evals += 1
+          check_one(shape, False, gen, subidx, complexity, False, res)
+  res.sample({'subfixture_family_example': next(iter(subfixture_family()))})
+
 
 
 def all_cases(b):
@@ -320,6 +356,11 @@ def run_unit(unit, tier, seed):
   res = core.Result()
   if unit[0] == 'expressions':
     run_expressions(res)
+  elif unit[0] == 'subfixture_family':
+    global _KK
+    if _KK is None:
+      _KK = kinds()
+    run_subfixture_family(b, res)
   else:
     run_shapes(unit[1], b, res)
   res.counters['programs'] = res.transitions
